@@ -218,3 +218,7 @@ impl PartialEq<&str> for RouteUri {
         self.representation == *other
     }
 }
+
+#[cfg(kani)]
+#[path = "/verif/kani/swimos_route/route_uri.rs"]
+pub(crate) mod verif_kani;
